@@ -25,7 +25,9 @@ def _run(ctx):
             # feedback deliveries whose mark reached the threshold while a newer operation was stored
             "cluster_stalefb_hits": cstats.get("stalefb_hits", 0),
             # start-up recoveries in which a peer held an operation the node had to refuse, or the peers disagreed
-            "cluster_recovery_contested": cstats.get("recovery_contested", 0)}
+            "cluster_recovery_contested": cstats.get("recovery_contested", 0),
+            # operations accepted by the gossip ingress of a node held inside its start-up recovery
+            "cluster_ingress_during_recovery": cstats.get("ingress_during_recovery", 0)}
     if any(v == 0 for v in need.values()):
         raise vlib.Inconclusive("vacuous run: %s" % need)
     cov = {
@@ -57,7 +59,7 @@ def _run(ctx):
         "StaleFeedback and RecoveryUnchecked were repaired in store.go / recovery.go and are stepped into freely); each window except PrematureRemoval (inherent to SIR removal with random peers) is replayed as a "
         "directed script and reported under a stable signature",
         "start-up recovery: peers in turn in any order, high-water mark loaded once at start, supersedes rule (as repaired); gossip is "
-        "not delivered to a node while its Open is running",
+        "delivered to a node inside its Open only by the directed script d-recovery-vs-ingress (gate on the recovery stream)",
         "TLC/SANY, Go toolchain, memkv (pebble in-memory) trusted",
     ])
 
